@@ -41,6 +41,17 @@ CALCS = {
 
 TABLES = ["public", "T1", "T2"]
 
+FALLBACK_INITS = ["mass.init", "density.init", "covalent_radius.init", "crystal_structure.init", "nsf.init",
+                  "activation.init", "xsf.init", "xsf.init_spectral_lines", "magnetic_ff.init"]
+FALLBACK_GROUPS = [
+    (["covalent_radius", "covalent_radius_units", "covalent_radius_uncertainty"], "covalent_radius.init"),
+    (["crystal_structure"], "crystal_structure.init"), (["neutron"], "nsf.init"),
+    (["neutron_activation"], "activation.init"), (["xray"], "xsf.init"),
+    (["K_alpha", "K_beta1", "K_alpha_units", "K_beta1_units"], "xsf.init_spectral_lines"),
+    (["magnetic_ff"], "magnetic_ff.init")]
+FALLBACK_MODULES = ["nsf", "xsf", "covalent_radius", "crystal_structure", "magnetic_ff", "activation",
+                    "fasta", "formulas", "plot", "cromermann", "nsf_tables", "util", "constants"]
+
 
 def nodes_of(key):
     """the delegation chain of an atom as (class letter, node key)"""
@@ -59,7 +70,17 @@ CLSNAME = {"N": "ion", "I": "isotope", "E": "element"}
 
 class Lab:
     def __init__(self, nworkers=None):
-        self.cfg = lazy_config()
+        from .translate import Unreadable
+        self.model_ok = True
+        try:
+            self.cfg = lazy_config()
+        except Unreadable as e:
+            # the source no longer has the shape the translator reads: no model predictions;
+            # histories are still run and judged by the oracle (DESIGN 4.7)
+            self.model_ok = False
+            self.unreadable = str(e)
+            self.cfg = dict(attrs=list(LAZY_ATTRS), inits=list(FALLBACK_INITS), modules=list(FALLBACK_MODULES),
+                            groups=[], guards=[])
         self.attrs = self.cfg["attrs"]
         if sorted(self.attrs) != sorted(LAZY_ATTRS):
             raise InfraError("registered lazy attributes changed: %r" % (self.attrs,))
@@ -189,6 +210,8 @@ class Lab:
 
     # ---------------------------------------------------------------- closure histories
     def closure_histories(self, group, ntables, limit=20000):
+        if not self.model_ok:
+            return 0, []
         lines = ["atom %s" % self.chain_text[k] for k in PROBES] + ["closure %d %d %d" % (group, ntables, limit)]
         rep = run_driver("lazy", lines)
         if not rep or not rep[-1].startswith("end"):
@@ -203,6 +226,8 @@ class Lab:
     # ---------------------------------------------------------------- running and comparing
     def run_model(self, histories):
         """replies of the driver for every history: list (per history) of list (per event) of replies"""
+        if not self.model_ok:
+            return [None] * len(histories)
         lines, shape = [], []
         for h in histories:
             lines.append("reset")
@@ -232,7 +257,7 @@ class Lab:
                 return None if real[0] == "ok" else "model done, real %r" % (real,)
             if model == "attrError":
                 return None if real == ["exc", "AttributeError"] else "model AttributeError, real %r" % (real,)
-            if model == "otherError":
+            if model in ("otherError", "outOfFuel"):
                 return None if real[0] == "exc" and real[1] != "AttributeError" else "model error, real %r" % (real,)
             return "model %s, real %r" % (model, real)
         if kind == "has":
@@ -264,10 +289,14 @@ def served_canon_token(lab: Lab, key, attr):
 # --------------------------------------------------------------------------- oracle + comparison of one history
 
 def group_of(lab: Lab, attr):
+    if not lab.cfg["groups"]:
+        return next(gi for gi, (names, _) in enumerate(FALLBACK_GROUPS) if attr in names)
     return next(gi for gi, g in enumerate(lab.cfg["groups"]) if attr in g["names"])
 
 
 def init_group(lab: Lab, init_name):
+    if not lab.cfg["groups"]:
+        return next((gi for gi, (_, ini) in enumerate(FALLBACK_GROUPS) if ini == init_name), None)
     m = lab.cfg["inits"].index(init_name)
     for gi, g in enumerate(lab.cfg["groups"]):
         if any(i == m for i, _ in g["inits"]):
@@ -351,6 +380,8 @@ def show(o):
 
 def compare(lab: Lab, hist, outs, replies):
     """first disagreement between model replies and real outcomes: (event index, text) or None"""
+    if replies is None:
+        return None
     for i, (ev, out, reps) in enumerate(zip(hist, outs, replies)):
         ml = lab.model_lines(ev)
         k = ev[0]
